@@ -1291,7 +1291,8 @@ def run(chk):
         "None-safe operator (min for the start, max for the end) so that the exit order of concurrent children cannot matter (the holder methods are run abstractly, "
         "together with the helpers they call, on a small value domain); all timing state is reached through one "
         "ContextVar whose only set installs a fresh dict and is reset on exit; propagation only when a parent exists (guards evaluated on representative token / exception "
-        "states); the executor and the composite's per-operation wrapper "
+        "states); the executor and the composite's per-operation wrapper - each analysed together with the helpers of its class / module that it runs inline (awaited on the "
+        "spot), values followed across them: parameters bound to arguments, results to what the helper returns, fields of a record to the constructor's arguments - "
         "each enclose exactly one delegate call in their own context and read start/end from that context; the wrapper computes over start/end only when both are present "
         "(decided on None / 0.0 / ordinary values); a failed wire request's end is recorded by the node-level perform_request handler on every exceptional exit. "
         "Roles (holder attribute, dict / token attributes, merge methods, context factory, sampler call) are derived from data flow, not from names of locals or attributes."
